@@ -324,6 +324,12 @@ Definition id_key (v : variant) (i : nat) (c : cred) : ckey :=
   | Fixed => if N.eqb (c_id c) 0 then KPtr i else KId (c_id c)
   end.
 
+(* the new credential of createNewCredential (plain credentials) *)
+Definition limited_cred (k : constraints) (c : cred) : cred :=
+  {| c_id := c_id c; c_issuer := c_issuer c; c_subject := c_subject c; c_types := c_types c;
+     c_proofs := if k_limit k then [] else c_proofs c; c_jwt := c_jwt c;
+     c_attrs := write_fields c (k_fields k) (if k_limit k then [] else c_attrs c) |}.
+
 Definition limit_one (v : variant) (d : desc) (ic : icred) : list wcred :=
   let '(i, c) := ic in
   match d_constraints d with
@@ -331,12 +337,7 @@ Definition limit_one (v : variant) (d : desc) (ic : icred) : list wcred :=
   | Some k =>
       let pred := existsb f_pred (k_fields k) in
       if k_limit k && negb (pred || subject_is_issuer c) then []
-      else if k_limit k || pred then
-        let template := if k_limit k then [] else c_attrs c in
-        let c' := {| c_id := c_id c; c_issuer := c_issuer c; c_subject := c_subject c; c_types := c_types c;
-                     c_proofs := if k_limit k then [] else c_proofs c; c_jwt := c_jwt c;
-                     c_attrs := write_fields c (k_fields k) template |} in
-        [{| w_key := KTmp (d_id d) i; w_src := i; w_cred := c' |}]
+      else if k_limit k || pred then [{| w_key := KTmp (d_id d) i; w_src := i; w_cred := limited_cred k c |}]
       else [{| w_key := id_key v i c; w_src := i; w_cred := c |}]
   end.
 Definition limit_disclosure (v : variant) (d : desc) (l : list icred) : list wcred :=
